@@ -15,7 +15,7 @@ unchanged; when every removable knot is gone the control net equals the original
 import copy
 
 from sim import shapes, refmodel as R
-from sim.core import Precondition, Rng, close, h64
+from sim.core import Precondition, Rng, Violation, close, h64
 from fractions import Fraction as F
 
 PROPS = ["C04", "C06"]
@@ -76,7 +76,32 @@ def gen(prop, stream, tier, avoid):
             # knot vectors kept in their original range a + L*[0,1] (normalize_kv=False), a and L dyadic per direction
             spec["aL"] = [[rng.pick([-2.0, 0.0, 1.0, 3.5]), rng.pick([0.5, 1.0, 2.0, 4.0])] for _ in range(nd_)]
             spec["knots"] = [shapes.affine_knots(kv, a, L) for kv, (a, L) in zip(spec["knots"], spec["aL"])]
+        if nd_ > 1 and rng.chance(0.12) and "unnormalised" not in avoid:
+            # usage: ONE knot vector variable for every direction of a square patch (s.knotvector_u = kv; s.knotvector_v = kv),
+            # kept as given (normalize_kv=False)
+            dg, sz = degs[0], max(spec["sizes"][0], degs[0] + 1)
+            spec = shapes.gen_shape(rng, kind=kind, degrees=[dg] * nd_, sizes=[min(sz, 4 if kind == "volume" else 6)] * nd_)
+            spec["delta"] = rng.pick([0.5, 0.25, 0.2])
+            aL0 = [rng.pick([0.0, 0.0, -2.0, 1.0]), rng.pick([1.0, 1.0, 2.0, 0.5])]
+            spec["aL"] = [list(aL0) for _ in range(nd_)]
+            spec["knots"] = [shapes.affine_knots(spec["knots"][0], aL0[0], aL0[1]) for _ in range(nd_)]
+            spec["share_dirs"] = True
         objs.append(spec)
+    if nobj >= 2 and kn.chance(0.2) and "unnormalised" not in avoid:
+        # usage: two objects built from the same knot vector variables (same list objects, normalize_kv=False)
+        src = kn.randrange(nobj)
+        dst = kn.pick([j for j in range(nobj) if j != src])
+        a = objs[src]
+        if not a.get("aL"):
+            a["aL"] = [[0.0, 1.0] for _ in a["degrees"]]
+        b = shapes.gen_shape(rng, kind=a["kind"], degrees=list(a["degrees"]), sizes=list(a["sizes"]), dim=a["dim"])
+        b["knots"] = [list(kv) for kv in a["knots"]]
+        b["aL"] = [list(x) for x in a["aL"]]
+        b["delta"] = a["delta"]
+        if a.get("share_dirs"):
+            b["share_dirs"] = True
+        b["share_kv_with"] = src
+        objs[dst] = b
     nops = kn.pick([2, 3, 4, 5, 6, 8, 10, 12, 16] + ([24, 32] if tier == "thorough" else []))
     w_ins = kn.uniform(1.0, 3.0)
     w_read = kn.uniform(0.2, 1.0)
@@ -89,7 +114,13 @@ def gen(prop, stream, tier, avoid):
             ops.append({"op": "cache_clear"})
         o = rng.randrange(nobj)
         nd = shapes.DIRS[objs[o]["kind"]]
-        k = rng.weighted([("insert", w_ins), ("read", w_read), ("reject", w_rej), ("remove", w_rem), ("refine", w_ref)])
+        k = rng.weighted([("insert", w_ins), ("read", w_read), ("reject", w_rej), ("remove", w_rem), ("refine", w_ref),
+                          ("clone", 0.25 if nobj >= 2 else 0.0)])
+        if k == "clone":
+            # usage: a second object is built from the getters of the first one (c.ctrlpts = ref.ctrlpts; c.knotvector = ref.knotvector)
+            # in the middle of the history, and both are used afterwards
+            ops.append({"op": "clone", "obj": o, "into": rng.pick([j for j in range(nobj) if j != o])})
+            continue
         if k == "insert":
             ndirs = 1 if rng.chance(0.7) else rng.randint(1, nd)
             dirs = {}
@@ -188,10 +219,15 @@ def sample_view(script, res):
 # execution
 
 class Live:
-    def __init__(self, spec, num):
+    def __init__(self, spec, num, lists=None):
         self.spec = spec
-        self.obj = shapes.build(spec, normalize_kv=False) if spec.get("aL") else shapes.build(spec)
         nd = shapes.DIRS[spec["kind"]]
+        if lists is not None:
+            # the caller's own knot vector list objects go to the setters (one variable for several directions / objects)
+            self.obj = shapes.define_shared(shapes.new_object(spec["kind"], spec["rational"], normalize_kv=False), spec["degrees"],
+                                            spec["sizes"], shapes.spec_ctrlptsw(spec), lists)
+        else:
+            self.obj = shapes.build(spec, normalize_kv=False) if spec.get("aL") else shapes.build(spec)
         self.aL = spec.get("aL") or [[0.0, 1.0]] * nd
         if nd == 1:
             self.obj.delta = spec["delta"]
@@ -387,8 +423,24 @@ def run(script, ctx):
     num = R.fr if script["knobs"].get("exact") else float
     ARGSEQ[0] = tuple if script["knobs"].get("argseq") == "tuple" else list
     world = []
-    for spec in script["objects"]:
-        world.append(Live(spec, num))
+    caller_lists = {}
+    sources = {sp["share_kv_with"] for sp in script["objects"] if sp.get("share_kv_with") is not None}
+    for oi, spec in enumerate(script["objects"]):
+        if spec.get("share_dirs"):
+            one = list(spec["knots"][0])
+            caller_lists[oi] = [one] * len(spec["knots"])
+        elif oi in sources and spec.get("aL"):
+            caller_lists[oi] = [list(kv) for kv in spec["knots"]]
+    for oi, spec in enumerate(script["objects"]):
+        lists = caller_lists.get(oi)
+        src = spec.get("share_kv_with")
+        if src is not None and src in caller_lists and src != oi and src < len(script["objects"]) and \
+                script["objects"][src]["knots"] == spec["knots"]:
+            lists = caller_lists[src]
+            ctx.probe("knot_vector_lists_shared_by_two_objects")
+        if lists is not None and len({id(x) for x in lists}) < len(lists):
+            ctx.probe("one_knot_vector_list_for_all_directions")
+        world.append(Live(spec, num, lists))
     ctx.log("built", [(lv.spec["kind"], lv.spec["rational"], lv.degrees, lv.sizes) for lv in world])
     for lv in world:
         if lv.spec.get("aL"):
@@ -396,9 +448,36 @@ def run(script, ctx):
         ctx.probe("object:" + lv.spec["kind"] + (":rational" if lv.spec["rational"] else ""))
     base_seed = h64(script.get("seed", 0), script.get("run", 0), "oracle")
     n_removals = 0
-    for idx, op in enumerate(script["ops"]):
+    last = [None]
+
+    def others_intact():
+        """No operation on one object may change another one (they may have been built from the same caller variables)."""
+        if last[0] is None or len(world) < 2:
+            return
+        k_, lv_, what_, sig_ = last[0]
+        last[0] = None
+        for j, other in enumerate(world):
+            if other is lv_:
+                continue
+            try:
+                _check_structure(ctx, other, what_ + " [an operation on ANOTHER object; this is object #%d, not operated on]" % j, sig_)
+                if other.spec.get("share_kv_with") is not None or any(w.spec.get("share_kv_with") == j for w in world):
+                    _check_function(ctx, other, what_ + " [an operation on ANOTHER object; this is object #%d]" % j, prop, sig_, h64(base_seed, "o", j))
+            except Violation as e:
+                if prop == "C06" and k_ in ("insert", "refine"):
+                    raise Precondition("an insertion / refinement changed another object: %s" % (e,))
+                raise
+
+    for idx, op in enumerate(script["ops"] + [{"op": "_end"}]):
+        if idx:
+            others_intact()
+        if op["op"] == "_end":
+            break
         ctx.step = idx
         k = op["op"]
+        if op.get("obj") is not None and op["obj"] < len(world):
+            last[0] = (k, world[op["obj"]], "%s on object #%d (step %d)" % (k, op["obj"], idx),
+                       dict(op=k, kind=world[op["obj"]].spec["kind"], rational=world[op["obj"]].spec["rational"], via=op.get("via", "-")))
         if k == "cache_clear":
             for name in ("knot_insertion_alpha", "knot_removal_alpha_i", "knot_removal_alpha_j"):
                 fn = getattr(g.helpers, name, None)
@@ -413,6 +492,34 @@ def run(script, ctx):
         lv = world[op["obj"]]
         kind = lv.spec["kind"]
         sig = dict(op=k, kind=kind, rational=lv.spec["rational"], via=op.get("via", "-"))
+
+        if k == "clone":
+            dst = op["into"]
+            if dst >= len(world) or dst == op["obj"]:
+                ctx.ops_skipped += 1
+                continue
+            src_obj = lv.obj
+            nd_ = lv.nd
+            lists = [src_obj.knotvector] if nd_ == 1 else [getattr(src_obj, "knotvector_" + shapes.SUFFIX[d]) for d in range(nd_)]
+            kw = {"normalize_kv": False} if lv.spec.get("aL") else {}
+            new_obj = shapes.define_shared(shapes.new_object(kind, lv.spec["rational"], **kw), list(lv.degrees), list(lv.sizes),
+                                           [list(q) for q in (src_obj.ctrlptsw if lv.spec["rational"] else src_obj.ctrlpts)], lists)
+            new_obj.delta = src_obj.delta
+            cl = copy.copy(lv)
+            cl.obj = new_obj
+            cl.spec = dict(lv.spec, share_kv_with=op["obj"])
+            cl.knots = [list(kv) for kv in lv.knots]
+            cl.sizes = list(lv.sizes)
+            cl.held_nums = {}
+            cl.pending = dict(lv.pending)
+            cl.evalpts_read = False
+            world[dst] = cl
+            ctx.log("clone", op["obj"], dst)
+            ctx.ops_executed += 1
+            ctx.probe("object_built_from_the_getters_of_another")
+            last[0] = None
+            _check_structure(ctx, cl, "building a second object from the getters of object #%d" % op["obj"], sig)
+            continue
 
         if k == "read":
             got = [list(p) for p in lv.obj.evalpts]
